@@ -211,6 +211,7 @@ func (this *RaftGroup) run() {
 				if rd.Snapshot.Metadata.Index > lastAppliedIdx {
 					lastAppliedIdx = rd.Snapshot.Metadata.Index
 				}
+				verifOnSnapshotApplied(this, rd.Snapshot)
 			}
 			for _, entry := range rd.CommittedEntries {
 				if entry.Type == raftpb.EntryConfChange {
@@ -222,6 +223,7 @@ func (this *RaftGroup) run() {
 						}
 					}
 				}
+				verifOnApply(this, entry)
 				lastAppliedIdx = entry.Index
 			}
 			if !this.isLeader() {
